@@ -13,6 +13,7 @@ def parse : List String → Option Op
   | ["pub", priv, blind] =>
       -- a failing blinding makes the call fail whatever the other argument is
       if blind = "FAIL" then some (.pub [] none) else do pure (.pub (← bytesOfHex priv) (← optBytes blind))
+  | ["compute", pub, priv, blind, "inplace"]     -- same function of its arguments: the model has no aliasing
   | ["compute", pub, priv, blind] =>
       if blind = "FAIL" then some (.compute [] [] none)
       else do pure (.compute (← bytesOfHex pub) (← bytesOfHex priv) (← optBytes blind))
